@@ -25,7 +25,10 @@ Model (JSON):
             "top": node}              # the top module ("p" node; for layouts mod/pyc/so only its own fields are used)
     node = {"t": "m", "imports": [imp...], "export": bool, "stub": bool}                                  # module  m<i>.py
          | {"t": "p", "init": bool, "imports": [...], "export": bool, "stub": bool, "ch": [node...]}      # sub-package s<i>/ (init False: no __init__.py)
-         | {"t": "d", "ext": int}                                                                           # compiled decoy d<i><ext>
+         | {"t": "d", "ext": int, "name": int}     # compiled decoy d<i><ext>, or named after a module that is already in
+                                                    # sys.modules (DECOY_NAMES: json, types, io, logging, sys, os)
+    (module / sub-package nodes may carry "enc": None | "latin-1" | "cp1252" | "bom": the source file is written in that PEP 263
+     encoding with a coding cookie and a non-ASCII character, i.e. it is legal Python but not valid UTF-8; "bom" = UTF-8 with BOM)
     imp  = [pkg_index, module_index, "name" | "star"]   # indices are taken modulo the available packages / modules
 
 Every module body (also stubs and source-less byte code) starts by appending its dotted name to the sentinel file.
@@ -101,12 +104,27 @@ def decoys(pkg, name: str) -> list[dict]:
         for i, ch in enumerate(node.get("ch", ())):
             if ch["t"] == "d":
                 ext = DECOY_EXTS[ch["ext"] % len(DECOY_EXTS)]
-                out.append({"dotted": f"{dotted}.d{i}", "rel": f"{rel}/d{i}{ext}", "ext": ext})
+                stem = DECOY_NAMES[ch.get("name", 0) % len(DECOY_NAMES)] or f"d{i}"
+                out.append({"dotted": f"{dotted}.{stem}", "rel": f"{rel}/{stem}{ext}", "ext": ext})
             elif ch["t"] == "p":
                 walk(ch, f"{dotted}.s{i}", f"{rel}/s{i}")
 
     walk(pkg["top"], name, name)
     return out
+
+
+DECOY_NAMES = [None, None, None, "json", "types", "io", "logging", "sys", "os"]
+ENCODINGS = {"latin-1": ("latin-1", "caf\u00e9 \u00fc\u00df"), "cp1252": ("cp1252", "prix 5\u20ac \u201cquoted\u201d"), "bom": ("utf-8-sig", "caf\u00e9 \u20ac")}
+
+
+def encode_source(src: str, enc: str | None) -> bytes:
+    """A legal Python source in a PEP 263 encoding: coding cookie + a comment with non-ASCII characters."""
+    if not enc:
+        return src.encode()
+    codec, sample = ENCODINGS[enc]
+    if enc == "bom":
+        return (f"# {sample}\n" + src).encode(codec)
+    return (f"# -*- coding: {codec} -*-\n# {sample}\n" + src).encode(codec)
 
 
 SYSPATH_TAMPER = {
@@ -195,7 +213,13 @@ def render(case, sentinel: str) -> dict:
                 root[f"{name}{ext}"] = GARBAGE
                 out_decoys.append({"dotted": name, "rel": f"{name}{ext}", "ext": ext})
             else:
-                root[m["rel"] + ".py"] = src.encode()
+                # the top-level module itself stays plain UTF-8: an undecodable top-level file is a legitimate LoadingError, and Griffe
+                # cannot parse a UTF-8 source that starts with a BOM either (reads it as "utf8", SyntaxError U+FEFF -> LoadingError;
+                # a limitation outside C15 — sub-modules in these encodings are skipped silently, which is all C15 needs)
+                enc = node.get("enc")
+                if m["dotted"] == name:
+                    enc = None
+                root[m["rel"] + ".py"] = encode_source(src, enc)
                 if node.get("stub"):
                     root[m["rel"] + ".pyi"] = _body(m["dotted"], sentinel, imports, exports, None, missing, stub=True).encode()
                 if pkg.get("stubs_pkg"):
@@ -240,9 +264,9 @@ def strategy():
     from hypothesis import strategies as st
 
     imp = st.tuples(st.sampled_from([1, 1, 1, 2, 0]), st.integers(0, 7), st.sampled_from(["name", "name", "star"])).map(list)
-    mod_fields = {"imports": st.lists(imp, max_size=2), "export": st.sampled_from([True, True, False]), "stub": st.sampled_from([False, False, True])}
+    mod_fields = {"enc": st.sampled_from([None] * 7 + ["latin-1", "cp1252", "bom"]), "imports": st.lists(imp, max_size=2), "export": st.sampled_from([True, True, False]), "stub": st.sampled_from([False, False, True])}
     module = st.fixed_dictionaries({"t": st.just("m"), **mod_fields})
-    decoy = st.fixed_dictionaries({"t": st.just("d"), "ext": st.integers(0, len(DECOY_EXTS) - 1)})
+    decoy = st.fixed_dictionaries({"t": st.just("d"), "ext": st.integers(0, len(DECOY_EXTS) - 1), "name": st.integers(0, len(DECOY_NAMES) - 1)})
     leaf = st.one_of(module, module, decoy)
     subpkg = st.fixed_dictionaries(
         {"t": st.just("p"), "init": st.sampled_from([True, True, True, False]), **mod_fields, "ch": st.lists(leaf, min_size=0, max_size=3)}
